@@ -240,6 +240,15 @@ def handle (op : String) : R String := do
     pure (match cmdWrite { f with userChords := chords } attrs rs with
       | .ok b => "ok " ++ hexOfBytes b
       | .error e => errStr e)
+  | "wconv" => do
+    let f ← rFlags
+    let attrs ← rList rAttr
+    let chords ← rList rChordDef
+    let cmds ← rList rStr
+    let rs ← rList rRawInstance
+    pure (match cmdWriteConv { f with userChords := chords } attrs cmds rs with
+      | .ok out => "ok " ++ pList pRawInstance out
+      | .error e => errStr e)
   | "tracks" => do
     let f ← rFlags
     let rs ← rList rRawInstance
